@@ -33,6 +33,16 @@ Python values; a construct the constructor rejects with a documented error is sk
 Guards: a dialect-specific construct on a foreign dialect must give a documented error
 (held) or compile; python values always match the column type (a str for an Integer
 column is not "well-formed"); warnings are ignored.
+
+Candidate genuine defects reported on the unchanged tree (mechanism = ExcType@module.function):
+  TypeError@sql.compiler.visit_function                  func.aggregate_strings() on the default / str dialect
+  AttributeError@dialects.mssql.base._schema_elements    Set/Drop{Table,Column}Comment of a schema-less table, unconnected dialect
+  AttributeError@sql.elements.__getattr__ , AttributeError@dialects.mysql.base.<genexpr>
+                                                         Index(<desc()/text()/function>, mysql_length={...}) on mysql
+  AttributeError@sql.base.corresponding_column           limit+offset+with_for_update(of=<Table>) on Oracle < 12 (ROWNUM path)
+  AttributeError@dialects.postgresql.base._on_conflict_target   sqlite on_conflict_do_update compiled on postgresql
+  AttributeError@dialects.oracle.base.visit_INTERVAL     postgresql.INTERVAL compiled on oracle
+  TypeError@util.langhelpers.constructor_copy            mysql.SET compiled on a non-mysql dialect
 """
 from __future__ import annotations
 
